@@ -88,7 +88,7 @@ def work_hist(item):
     for tail in itertools.product(names, repeat=length - 1):
         seq = (first,) + tail
         U = H.Universe()
-        net = U.M.Network(name="h")
+        net = U.Network(name="h")
         out["paths"] += 1
         try:
             for k, nm in enumerate(seq):
@@ -121,7 +121,7 @@ def replay(rec):
         bad = H.lookup_mismatches(net)
         print(f"pre-state {rec['bits']}; cached: {[n for k, n in enumerate(H.CACHED) if rec['mask'] >> k & 1]}; call {rec['op']}; lookups differing from the graph: {bad}")
         return 1 if bad else 0
-    net = U.M.Network(name="h")
+    net = U.Network(name="h")
     bad = []
     for nm in rec["seq"]:
         H.touch(net, 0x7FF)
